@@ -18,6 +18,7 @@ TRUSTED = ["harness/lib_setup.py (generator, canonicaliser, reachability and dis
 ASSUMPTIONS = ["as C01; reachability and depth are taken over the tables of every declared version of a product "
                "(reading ii of DESIGN.md section 6 C04, over-approximated)"]
 PID = "C04"
+MIRRORS = L.mirrors(PID)
 
 
 def aim_keep_at_line_tag(rng, case):
